@@ -20,7 +20,7 @@ from vlib.runner import HarnessError
 ID = "C03"
 TITLE = "Deserialization is total, pure and crash-free on arbitrary input"
 RULE = ("Hypothesis draws a type program (including the types converted by std_types: UUID, date, datetime, time, Decimal, bytes, "
-        "Path, IPv4Address, a user type with two catching deserializers, and integer / float multipleOf), an option set (additional_properties, fall_back_on_default, aliaser, no_copy, "
+        "Path, IPv4Address, a user type with two catching deserializers, and integer / float multipleOf), an option set (additional_properties, fall_back_on_default, aliaser, no_copy, settings.deserialization.override_dataclass_constructors, "
         "coerce in {off, True, custom coercer returning wrong-typed values / raising}) and 4-10 Python data per type: valid "
         "data with 1-2 hostile atoms planted (nan, inf, -0.0, 10**400, bytes, tuple, set, str/int/float/dict/list subclasses, "
         "dicts with int/None/tuple/bytes/mixed keys, unhashable / hostile-__eq__ objects, ...), mutants, coercion-bait strings, "
@@ -117,6 +117,7 @@ def strategy_(draw, tier):
     case = draw(tdcase.td_cases(cfg, n_data=(4, 10), data_fn=data_fn))
     case["opts"]["coerce"] = pick(draw, [False, False, True, True, "weird", "unhashable"])
     case["opts"]["no_copy"] = draw(st.booleans())
+    case["opts"]["override_constructors"] = chance(draw, 0.3)  # settings.deserialization.override_dataclass_constructors
     return case
 
 
@@ -152,9 +153,12 @@ def evaluate(case, ctx):
         b = build.load(prog)
     except Exception as e:
         raise HarnessError(f"generated program does not build: {e!r}\n{build.render(prog)}")
+    old_override = apischema.settings.deserialization.override_dataclass_constructors
     try:
+        apischema.settings.deserialization.override_dataclass_constructors = bool(opts.get("override_constructors"))
         _evaluate(case, ctx, b, prog, opts)
     finally:
+        apischema.settings.deserialization.override_dataclass_constructors = old_override
         b.close()
 
 
